@@ -9,6 +9,7 @@ import L21.Driver.RawProtoIO
 import L21.Driver.RawGdsIO
 import L21.Driver.PlaceIO
 import L21.Driver.LefIO
+import L21.Driver.TProtoIO
 /-
 Line-protocol operations: `<op> <sexpr>*` ↦ result line.
 -/
@@ -152,6 +153,9 @@ def dispatch (op : String) (args : List Sexp) : String :=
   | "lef.wr" => "unsupported"
   | "lef.crash" => "unsupported"
   | "lef.big" => "unsupported"
+  | "tproto.export" => TP.opTExport args
+  | "tproto.import" => TP.opTImport args
+  | "tproto.rt" => TP.opTRoundtrip args
   | "tf.apply" => opTfApply args
   | "tf.general" => "unsupported"
   | "c20.abs2gds" => "unsupported"
